@@ -822,7 +822,9 @@ impl<'a> Gen<'a> {
             // the same prefix would issue the same span ids, which real threads (random prefixes)
             // do only with probability 2^-32 and which the model's id theorems exclude
             let zero = !self.zero_prefix_used && self.rng.chance(1, 25);
-            let (p, sfx) = if zero { (0u32, u32::MAX - 1 - self.rng.below(3) as u32) } else { (t as u32 + 1, 0) };
+            // some threads have issued almost 2^32 span ids already (the per-thread counter wraps)
+            let old_thread = self.rng.chance(1, 8);
+            let (p, sfx) = if zero { (0u32, u32::MAX - 1 - self.rng.below(3) as u32) } else { (t as u32 + 1, if old_thread { u32::MAX - 1 - self.rng.below(4) as u32 } else { 0 }) };
             cands.push((if alive == 0 { 50 } else { 2 }, Act::Spawn(t, p, sfx)));
         }
         let tids: Vec<usize> = self.threads.keys().copied().collect();
@@ -879,6 +881,55 @@ impl<'a> Gen<'a> {
             self.perform(Act::Push(t));
             guard += 1;
         }
+    }
+
+    /// profiles with adapters: a scripted opening in which the completing call of an adapter that
+    /// owns its trace's root has recorded a local span, and a whole collector cycle runs after the
+    /// FIRST push of that call (between what the guard submits and the span's own submit and
+    /// commit); the history continues at random
+    fn prelude_final_poll(&mut self) {
+        let c = match self.prof.force_cancelable { Some(b) => b, None => self.rng.chance(1, 2) };
+        self.perform(Act::Install(c));
+        self.perform(Act::Spawn(0, 1, 0));
+        let plain = |g: &mut Self| loop {
+            let h = g.fresh();
+            if eop_route(h).is_none() {
+                return h;
+            }
+        };
+        let root = plain(self);
+        let name = self.next_sym + 1;
+        self.do_call(0, vec![s("root"), s(root), s(name), format!("{:x}", 0x1000 + self.next_trace as u128 + 1), s(7), s(1)]);
+        if self.rng.chance(1, 2) {
+            self.run_cycle();
+        }
+        let a = plain(self);
+        let kind = *self.rng.pick(&["fut", "stream", "sink"]);
+        self.do_call(0, vec![s("adnew"), s(a), s(root), s(kind)]);
+        let g = plain(self);
+        let meth = match kind { "stream" => "next", "sink" => "close", _ => "fut" };
+        self.do_call(0, vec![s("pollb"), s(a), s(g), s(meth)]);
+        let l = plain(self);
+        let nl = self.next_sym + 1;
+        self.do_call(0, vec![s("lenter"), s(l), s(nl)]);
+        self.do_call(0, vec![s("lexit"), s(l)]);
+        if self.dead {
+            return;
+        }
+        // the completing call: its pushes are placed by hand
+        let toks = vec![s("polle"), s(a), s(meth), s("final")];
+        self.pre_call(0, &toks);
+        self.perform(Act::Call(0, toks));
+        if !self.dead && self.threads[&0].st == TSt::Push {
+            self.perform(Act::Push(0));
+        }
+        self.run_cycle();
+        let mut guard = 0;
+        while !self.dead && self.threads[&0].st == TSt::Push && guard < 1000 {
+            self.perform(Act::Push(0));
+            guard += 1;
+        }
+        self.run_cycle();
     }
 
     /// `collect` profile: a scripted opening in which a local collector is collected while a
@@ -1102,6 +1153,8 @@ pub fn generate(seed: u64, first: usize, n: usize, prof_name: &str, out: &mut dy
         };
         if prof.name == "collect" && g.rng.chance(1, 3) {
             g.prelude_collect_open();
+        } else if prof.adapters && g.rng.chance(1, if prof.name == "adapters" { 4 } else { 10 }) {
+            g.prelude_final_poll();
         }
         while g.nactions < len && !g.dead {
             g.step();
